@@ -152,7 +152,9 @@ func cmdTokens(args []string) {
 			if i%4 == 1 {
 				e2 = 0 // a password of a recipe without any choice has zero entropy
 			}
+			wantRT = s.Toks
 			emitRT(em, ts, e2, "built")
+			wantRT = nil
 		case "dec":
 			if s.Str == nil {
 				s.Str = []int{}
@@ -197,19 +199,21 @@ func cmdTokens(args []string) {
 }
 
 type pendingRT struct {
-	ts  spg.Tokens
-	ent float32
-	how string
-	enc EncRes
-	raw spg.Indices // the very slice MakeIndices returned (not a copy): it must still be valid when it is used later
+	want []TokJ // the tokens that were to be built (nil for generated passwords)
+	ts   spg.Tokens
+	ent  float32
+	how  string
+	enc  EncRes
+	raw  spg.Indices // the very slice MakeIndices returned (not a copy): it must still be valid when it is used later
 }
 
 var rtBatch []pendingRT
+var wantRT []TokJ
 
 // emitRT encodes now and decodes later: indices of a whole batch are produced before any of them is used,
 // so that an index must not depend on MakeIndices calls made after it.
 func emitRT(em *Emitter, ts spg.Tokens, ent float32, how string) {
-	p := pendingRT{ts: ts, ent: ent, how: how, enc: encode(ts)}
+	p := pendingRT{ts: ts, ent: ent, how: how, enc: encode(ts), want: wantRT}
 	func() {
 		defer func() { recover() }()
 		p.raw, _ = ts.MakeIndices()
@@ -230,10 +234,13 @@ func flushRT(em *Emitter) {
 			}
 			p.enc.Idx = now
 		}
+		curWant = p.want
 		emitRTNow(em, p.ts, p.ent, p.how, p.enc)
 	}
 	rtBatch = nil
 }
+
+var curWant []TokJ
 
 func emitRTNow(em *Emitter, ts spg.Tokens, ent float32, how string, enc EncRes) {
 	p := spg.Password{}
@@ -246,6 +253,15 @@ func emitRTNow(em *Emitter, ts spg.Tokens, ent float32, how string, enc EncRes) 
 	if enc.Kind == "ok" {
 		dec = decode(str, enc.Idx, ent)
 	}
-	em.Emit(map[string]interface{}{"op": "rt", "how": how, "toks": TokJs(ts), "str": CPs(str), "kindGo": int(ts.Kind()), "enc": enc, "dec": dec,
+	want := curWant
+	if want == nil {
+		want = TokJs(ts)
+	}
+	for i := range want {
+		if want[i].V == nil {
+			want[i].V = []int{}
+		}
+	}
+	em.Emit(map[string]interface{}{"op": "rt", "how": how, "want": want, "toks": TokJs(ts), "str": CPs(str), "kindGo": int(ts.Kind()), "enc": enc, "dec": dec,
 		"atoms": CPsList(ts.Atoms()), "seps": CPsList(ts.Separators())})
 }
